@@ -70,8 +70,9 @@ def recovery(rep, r, n):
         kw = dict(sma0=sma0, minsma=r.choice([0.0, 1.0, 3.0, sma0 * 0.97]), maxsma=r.choice([30.0, 40.0, 45.0]), step=r.choice([0.1, 0.15, 0.2]))
         if r.random() < 0.3:
             kw.update(linear=True, step=r.choice([2.0, 3.0]))
-        if r.random() < 0.2 and gal['eps'] < 0.6:          # area integration needs a few pixels across the minor axis
+        if k % 3 == 1 and gal['eps'] < 0.6:                # area integration (used from sma ~ 30 outwards) needs a few pixels across the minor axis
             kw['integrmode'] = r.choice(['mean', 'median'])
+            kw['maxsma'] = 52.0
         rp = {'galaxy': gal, 'kwargs': kw}
         try:
             iso, init = fit(gal, img, kw)
@@ -101,7 +102,7 @@ def recovery(rep, r, n):
         for i in iso:
             if i.sma < 5 or i.sma * (1 - gal['eps']) < 4.0 or i.stop_code != 0 or i.sma > 0.8 * min(gal['shape']) / 2 or i.ndata < 20:
                 continue
-            tol_pos = max(5 * float(i.x0_err), 5 * float(i.y0_err), 0.08)
+            tol_pos = max(3 * float(i.x0_err), 3 * float(i.y0_err), 0.1)
             tol_eps = max(5 * float(i.ellip_err), 0.025)
             tol_pa = max(5 * float(i.pa_err), 0.02 / max(gal['eps'], 0.05) * 0.1 + 0.01)
             checks = [('x0', abs(i.x0 - gal['x0']), tol_pos), ('y0', abs(i.y0 - gal['y0']), tol_pos), ('eps', abs(i.eps - gal['eps']), tol_eps),
@@ -257,7 +258,7 @@ def run(rep, tier):
                 'minsma 0..0.97 sma0, maxsma 30-45, one fix_* flag per galaxy. Well sampled = sma >= 5, semi-minor axis >= 3, stop code 0. '
                 'to_polar on random and axis-aligned points; growth lists and corrector choice against the model.')
     rep.assumptions += ['the harmonic fit, the sampling and the size of the corrections are oracles of the model',
-                        'recovery tolerances: max(5 x reported error, 0.08 px / 0.025 / ~0.02 rad / 5 %); model image: median 5 %, 95th percentile 20 % (pixel-sampled profiles, bilinear sampling bias)']
+                        'recovery tolerances: centre max(3 x reported error, 0.1 px); others max(5 x reported error, 0.025 / ~0.02 rad / 5 %); model image: median 5 %, 95th percentile 20 % (pixel-sampled profiles, bilinear sampling bias)']
     rep.lean = prove(PROP_MODULES)
     r = rng('C20')
     polar_correspondence(rep, r, 300 * scale)
